@@ -199,8 +199,19 @@ def run_kani_batched(ov, filters, jobs, harness_timeout, total_timeout, extra, j
     result files are merged.  Selection = the harness names found in the overlay that contain one of the filters,
     i.e. what the filters themselves would select."""
     names = [n for n in scan_harness_names(ov) if any(f in n for f in filters)]
+    # development aid (tools/seeded_run.py): restrict a check to the harnesses that can see a given change.  A
+    # violation found by a subset is found by the registered check a fortiori; never set for registered commands.
+    only = [x for x in os.environ.get("VERIF_ONLY", "").split(",") if x]
+    skip = [x for x in os.environ.get("VERIF_SKIP", "").split(",") if x]
+    restricted = bool(only or skip)
+    if only:
+        names = [n for n in names if any(x in n for x in only)]
+    if skip:
+        names = [n for n in names if not any(x in n for x in skip)]
     # a name that is a substring of another one selects both: drop the longer one from the explicit list
     names = [n for n in names if not any(o != n and o in n for o in names)]
+    if restricted and names and len(names) <= batch + batch // 4:
+        return run_kani(ov, names, jobs, harness_timeout, total_timeout, extra, json_out, log_path, mem_gb)
     if not batch or len(names) <= batch + batch // 4:
         return run_kani(ov, filters, jobs, harness_timeout, total_timeout, extra, json_out, log_path, mem_gb)
     t0 = time.time()
